@@ -22,6 +22,8 @@ AREAS = {
     # (the Tokenizer / CharRefTokenizer methods themselves are covered by the tokenizer tables)
     "html_tokenizer_misc": ("html5ever", ["tokenizer"], DERIVED, ("Tokenizer", "CharRefTokenizer")),
     "xml_tokenizer_misc": ("xml5ever", ["tokenizer"], DERIVED + ("run", "step", "incr", "do_before_name", "do_in_name", "do_after_colon"), ("XmlTokenizer", "CharRefTokenizer", "QualNameTokenizer")),
+    # the SIMD fast path of the data state and its dispatcher (not part of the tokenizer tables)
+    "html_tokenizer_simd": ("html5ever", ["tokenizer"], (), (), ("data_state_simd_fast_path", "data_state_sse2_fast_path", "data_state_neon_fast_path", "is_supported_simd_feature_detected")),
 }
 _cache = {}
 
@@ -37,7 +39,8 @@ def area_current(ctx, area):
             known = set(area_ref(area, ctx))
         except (OSError, ValueError, KeyError):
             known = None
-        _cache[ck] = nf.area_nf(ctx.ast, crate, mods, excl, skip_types, known)
+        only = AREAS[area][4] if len(AREAS[area]) > 4 else ()
+        _cache[ck] = nf.area_nf(ctx.ast, crate, mods, excl, skip_types, None if only else known, only)
         note = _cache[ck].pop("_inlined_new", None)
         if note:
             ctx.notes.append("%s: private functions not in the reviewed reference were inlined into their callers: %s" % (area, ", ".join(note["names"])))
